@@ -287,6 +287,9 @@ func (l *live) drainNodes(what string, it graph.Nodes, errs *[]string) map[int64
 	if n >= 0 && cnt != n {
 		bad("Len() said %d, Next yielded %d", n, cnt)
 	}
+	if n >= 0 && it.Len() != 0 {
+		bad("Len()=%d on the exhausted iterator, want 0", it.Len())
+	}
 	if it.Next() {
 		bad("Next() true after exhaustion")
 	}
@@ -309,6 +312,9 @@ func (l *live) drainNodes(what string, it graph.Nodes, errs *[]string) map[int64
 		}
 		if it.Next() {
 			bad("Next() true after NodeSlice")
+		}
+		if n >= 0 && it.Len() != 0 {
+			bad("Len()=%d after NodeSlice handed out the remaining nodes, want 0", it.Len())
 		}
 	} else {
 		for it.Next() {
@@ -360,6 +366,9 @@ func (l *live) drainEdges(what string, it graph.Iterator, cur func() graph.Edge,
 	if n >= 0 && cnt != n {
 		bad("Len() said %d, Next yielded %d", n, cnt)
 	}
+	if n >= 0 && it.Len() != 0 {
+		bad("Len()=%d on the exhausted iterator, want 0", it.Len())
+	}
 	it.Reset()
 	if n >= 0 && it.Len() != n {
 		bad("Len()=%d after Reset, want %d", it.Len(), n)
@@ -371,6 +380,12 @@ func (l *live) drainEdges(what string, it graph.Iterator, cur func() graph.Edge,
 	if slice != nil {
 		if s := slice(); s != nil || n-c2 == 0 {
 			c2 += len(s)
+		}
+		if n >= 0 && it.Len() != 0 {
+			bad("Len()=%d after the slice form handed out the remaining edges, want 0", it.Len())
+		}
+		if it.Next() {
+			bad("Next() true after the slice form")
 		}
 	} else {
 		for it.Next() {
